@@ -110,6 +110,11 @@ def scene_case(spec):
     out = {"evaluations": 1, "mismatches": [], "prop_failures": [], "dist": {"scene_random_tables": 1}, "nontrivial": []}
     nb = int(rng.integers(1, 3))
     cfg = S.draw_config(rng, nb=nb, multi_dir=True, random_tables=True, max_patches=spec["max_patches"])
+    if spec.get("wide"):
+        # a fine outgoing sampling (more than 256 directions) next to a coarse incoming one: slot indices
+        # beyond one byte
+        cfg["out_dirs"] = (int(rng.integers(17, 21)), 16, float(np.round(rng.uniform(0.05, 0.3), 4)))
+        out["dist"]["outgoing_sampling_over_256"] = 1
     radi = S.build(cfg)
     src = S.draw_inside(rng, cfg["dims"])
     recs = [S.draw_inside(rng, cfg["dims"])]
@@ -117,7 +122,7 @@ def scene_case(spec):
     c, dt, dur = P.draw_timing(rng, cfg, K, "long", radi, src, recs)
     tag = dict(dims=cfg["dims"], patch_size=cfg["patch_size"], n_patches=cfg["n_patches"], nb=nb, nt=cfg["nt"],
                nphi=cfg["nphi"], src=src.tolist(), rec=recs[0].tolist(), c=c, dt=dt, dur=dur,
-               seed=spec["seed"], idx=spec["idx"])
+               seed=spec["seed"], idx=spec["idx"], wide=bool(spec.get("wide")), max_patches=spec["max_patches"])
     out["sample"] = tag
     impl = P.impl_pipeline(radi, src, c, dt, dur, K, recs)
     tok = P.model_session(radi, src, c, dt, dur, K, recs)
@@ -268,6 +273,9 @@ def run(res):
     for r in fw.run_parallel(scene_case, [dict(seed=res.seed, idx=i, max_patches=(16 if quick else 30))
                                           for i in range(8 if quick else 80)]):
         res.absorb(r)
+    for r in fw.run_parallel(scene_case, [dict(seed=res.seed + 5, idx=i, max_patches=8, wide=True)
+                                          for i in range(2 if quick else 12)]):
+        res.absorb(r)
     res.rule = ("24 axis frames + random orthonormal frames with rescaled normal/up, 2-40 hemisphere samples; random "
                 "lookups (near-ties < 1e-9 rejected); oblique single-wall objects through set_wall_brdf; baked scenes "
                 "with direction-dependent random tables where every stage's choice of sample is recomputed from the "
@@ -289,4 +297,6 @@ def replay(res, payload):
         elif case.get("multiwall"):
             res.absorb(multiwall_case(sp_))
         else:
+            sp_["wide"] = bool(case.get("wide"))
+            sp_["max_patches"] = case.get("max_patches", 30)
             res.absorb(scene_case(sp_))
